@@ -646,6 +646,7 @@ class Sim:
         if ipaddress.ip_address(daddr).version == 6:
             family = _socket.AF_INET6
         ev = xfrmdec.enc_expire(daddr, spi, proto, hard, family=family)
+        self.last_expire = (daddr, proto, bytes(spi), hard)
         return ep.step('expire_hard' if hard else 'expire_soft', xfrm_event=ev)
 
 
@@ -722,3 +723,23 @@ def handshake(sim, a, b, **acq):
     sim.drain()
     return (len(a.ctl.ike_sas) == 1 and len(b.ctl.ike_sas) == 1
             and a.ctl.ike_sas[0].state == State.ESTABLISHED and b.ctl.ike_sas[0].state == State.ESTABLISHED)
+
+
+def make_star(seed=0, peers=2, v6=False, **kw):
+    """Hub H (192.0.2.100) with one connection to each of P1..Pn; returns (sim, hub, [peers])."""
+    sim = Sim(seed)
+    hub_addr = '2001:db8::100' if v6 else '192.0.2.100'
+    hub_conf, peer_eps = {}, []
+    confs = []
+    for i in range(peers):
+        pa = f'2001:db8::{i + 1}' if v6 else f'192.0.2.{i + 1}'
+        ca, cb = pair_conf(v6=v6, index_a=10 + i, index_b=20 + i, **kw)
+        c_peer, c_hub = ca['conn'], cb['conn']
+        c_peer['my_addr'], c_peer['peer_addr'] = pa, hub_addr
+        c_hub['my_addr'], c_hub['peer_addr'] = hub_addr, pa
+        hub_conf[f'to_p{i + 1}'] = c_hub
+        confs.append((pa, {'to_hub': c_peer}))
+    hub = sim.add('H', [hub_addr], hub_conf)
+    for i, (pa, c) in enumerate(confs):
+        peer_eps.append(sim.add(f'P{i + 1}', [pa], c))
+    return sim, hub, peer_eps
